@@ -1,157 +1,209 @@
-------------------------------- MODULE Mutex -------------------------------
-(* DRAFT (round 0).  Literal model of src/sync/mutex.rs lock()/try_lock()/unlock()
-   over the SyncBlocker hand-shake (src/sync/blocking.rs:132-177).  The Park/ThreadPark
-   underneath is abstracted to its checked contract (AbsBlocker): a binary token;
-   park() returns Ok consuming the token, or -- for a cancelled coroutine -- Canceled,
-   in which case a token that raced in is *discarded* (the post-resume check_park clears
-   it), which is exactly why the code tracks `unparked` separately.
-   pc labels = hook site names. *)
-EXTENDS Naturals, FiniteSets, Sequences, TLC
+-------------------------------- MODULE Mutex --------------------------------
+(* Literal model of src/sync/mutex.rs lock()/try_lock()/unlock() over the SyncBlocker
+   hand-shake (src/sync/blocking.rs).  One action per shared-memory operation; the value of
+   pc[a] is the *name of the verification point* (hook site) the actor is stopped at, i.e. the
+   operation it performs next.  Labels without a dot are internal (no hook).
+
+   The Park/ThreadPark underneath is abstracted to its contract (AbsBlocker, checked in
+   l1/Park.tla): a binary token; park() consumes the token and returns Ok, or - for a cancelled
+   coroutine - returns Canceled, in which case a token that raced in is discarded by the
+   post-resume check_park (which is why the code tracks `unparked` separately).  A park is two
+   actions, ParkEnter (point sb.park) and ParkReturn (point sb.park.ret), with the state
+   "parked" in between, so that a replay drives the real code through real suspension.
+
+   Prog[a] is a sequence of "lock" / "try" operations.                                     *)
+EXTENDS Integers, FiniteSets, Sequences, TLC
 
 CONSTANTS Actors, Victims,      \* Victims \subseteq Actors may be cancelled at any time
-          Rounds,               \* lock/unlock rounds per actor
-          ForwardOnCancel,      \* TRUE = code as written; FALSE = mutant: cancel path
-                                \*        panics without the is_unparked/release hand-shake
+          Prog,                 \* [Actors -> Seq({"lock","try"})]
+          ForwardOnCancel,      \* TRUE = code as written; FALSE = mutant
           UnlockGt              \* the constant in `fetch_sub(1) > UnlockGt` (1 as written)
 
 VARIABLES cnt, toWake,                      \* the mutex
-          token, unparked, release,         \* per blocker (= <<actor, round>>)
-          pc, rnd, w, retTo, cancelled
+          token, unparked, release,         \* per blocker (= <<actor, op index>>)
+          pc, ip, w, retTo, cancelled, parked, res,
+          data, seen                        \* ghost: protected datum, what the holder read
 
-vars == <<cnt, toWake, token, unparked, release, pc, rnd, w, retTo, cancelled>>
+vars == <<cnt, toWake, token, unparked, release, pc, ip, w, retTo, cancelled, parked, res, data, seen>>
 
-Blockers == Actors \X (1..Rounds)
-Me(a) == <<a, rnd[a]>>
+MaxOps == 3
+Blockers == Actors \X (1..MaxOps)
+Me(a) == <<a, ip[a]>>
 NoB == <<"none", 0>>
+Op(a) == Prog[a][ip[a]]
+First(a) == IF Len(Prog[a]) = 0 THEN "done" ELSE "mutex.try.cas"
 
 Init ==
   /\ cnt = 0 /\ toWake = <<>>
   /\ token = [b \in Blockers |-> FALSE] /\ unparked = [b \in Blockers |-> FALSE]
   /\ release = [b \in Blockers |-> FALSE]
-  /\ pc = [a \in Actors |-> "try.cas"] /\ rnd = [a \in Actors |-> 1]
+  /\ ip = [a \in Actors |-> 1]
+  /\ pc = [a \in Actors |-> First(a)]
   /\ w = [a \in Actors |-> NoB] /\ retTo = [a \in Actors |-> "none"]
   /\ cancelled = [a \in Actors |-> FALSE]
+  /\ parked = [a \in Actors |-> FALSE] /\ res = [a \in Actors |-> "none"]
+  /\ data = 0 /\ seen = [a \in Actors |-> 0]
 
 Goto(a, l) == pc' = [pc EXCEPT ![a] = l]
 UNCH_B == UNCHANGED <<token, unparked, release>>
 UNCH_M == UNCHANGED <<cnt, toWake>>
-UNCH_L == UNCHANGED <<rnd, w, retTo, cancelled>>
+UNCH_G == UNCHANGED <<data, seen>>
+UNCH_L == UNCHANGED <<ip, w, retTo, cancelled, parked, res>>
 
+\* try_lock(): compare_exchange(0, 1); lock() starts with the same call
 TryCas(a) ==
-  /\ pc[a] = "try.cas"
-  /\ IF cnt = 0 THEN cnt' = 1 /\ Goto(a, "cs") ELSE UNCHANGED cnt /\ Goto(a, "lock.push")
+  /\ pc[a] = "mutex.try.cas"
+  /\ IF cnt = 0 THEN /\ cnt' = 1 /\ Goto(a, "mutex.cs")
+                     /\ seen' = [seen EXCEPT ![a] = data] /\ UNCHANGED data
+                ELSE /\ UNCHANGED <<cnt, data, seen>>
+                     /\ Goto(a, IF Op(a) = "lock" THEN "mutex.lock.push" ELSE "next")
   /\ UNCHANGED toWake /\ UNCH_B /\ UNCH_L
 
 LockPush(a) ==
-  /\ pc[a] = "lock.push"
-  /\ toWake' = Append(toWake, Me(a)) /\ Goto(a, "lock.inc")
-  /\ UNCHANGED cnt /\ UNCH_B /\ UNCH_L
+  /\ pc[a] = "mutex.lock.push"
+  /\ toWake' = Append(toWake, Me(a)) /\ Goto(a, "mutex.lock.inc")
+  /\ UNCHANGED cnt /\ UNCH_B /\ UNCH_L /\ UNCH_G
 
 LockInc(a) ==
-  /\ pc[a] = "lock.inc"
+  /\ pc[a] = "mutex.lock.inc"
   /\ cnt' = cnt + 1
-  /\ IF cnt = 0 THEN Goto(a, "unlock.pop") /\ retTo' = [retTo EXCEPT ![a] = "lock.park"]
-                ELSE Goto(a, "lock.park") /\ UNCHANGED retTo
-  /\ UNCHANGED <<toWake, rnd, w, cancelled>> /\ UNCH_B
+  /\ IF cnt = 0 THEN Goto(a, "mutex.pop") /\ retTo' = [retTo EXCEPT ![a] = "sb.park"]
+                ELSE Goto(a, "sb.park") /\ UNCHANGED retTo
+  /\ UNCHANGED <<toWake, ip, w, cancelled, parked, res>> /\ UNCH_B /\ UNCH_G
 
-(* pop one waiter (used by the self-service path and by unlock) *)
+(* pop one waiter (the self-service path of lock() and unlock()) *)
 Pop(a) ==
-  /\ pc[a] = "unlock.pop"
+  /\ pc[a] = "mutex.pop"
   /\ toWake # <<>>                       \* `.expect("got null blocker!")`, see PopNeverEmpty
   /\ w' = [w EXCEPT ![a] = Head(toWake)] /\ toWake' = Tail(toWake)
-  /\ Goto(a, "wake.unpark")
-  /\ UNCHANGED <<cnt, rnd, retTo, cancelled>> /\ UNCH_B
+  /\ Goto(a, "sb.unpark")
+  /\ UNCHANGED <<cnt, ip, retTo, cancelled, parked, res>> /\ UNCH_B /\ UNCH_G
 
 WakeUnpark(a) ==
-  /\ pc[a] = "wake.unpark"
-  /\ token' = [token EXCEPT ![w[a]] = TRUE] /\ Goto(a, "wake.set_unparked")
-  /\ UNCHANGED <<unparked, release>> /\ UNCH_M /\ UNCH_L
+  /\ pc[a] = "sb.unpark"
+  /\ token' = [token EXCEPT ![w[a]] = TRUE] /\ Goto(a, "sb.set_unparked")
+  /\ UNCHANGED <<unparked, release>> /\ UNCH_M /\ UNCH_L /\ UNCH_G
 
 WakeSetUnparked(a) ==
-  /\ pc[a] = "wake.set_unparked"
-  /\ unparked' = [unparked EXCEPT ![w[a]] = TRUE] /\ Goto(a, "wake.takerel")
-  /\ UNCHANGED <<token, release>> /\ UNCH_M /\ UNCH_L
+  /\ pc[a] = "sb.set_unparked"
+  /\ unparked' = [unparked EXCEPT ![w[a]] = TRUE] /\ Goto(a, "sb.take_release")
+  /\ UNCHANGED <<token, release>> /\ UNCH_M /\ UNCH_L /\ UNCH_G
 
-WakeTakeRel(a) ==
-  /\ pc[a] = "wake.takerel"
-  /\ release' = [release EXCEPT ![w[a]] = FALSE]
-  /\ IF release[w[a]] THEN Goto(a, "unlock.dec") ELSE Goto(a, retTo[a])
-  /\ UNCHANGED <<token, unparked>> /\ UNCH_M /\ UNCH_L
+\* take_release() is called by the waker (on w[a]) and by the cancelled waiter (on Me(a));
+\* retTo[a] = "c_recheck" marks the latter
+TakeRelease(a) ==
+  /\ pc[a] = "sb.take_release"
+  /\ LET b == IF retTo[a] = "c_recheck" THEN Me(a) ELSE w[a] IN
+       /\ release' = [release EXCEPT ![b] = FALSE]
+       /\ IF retTo[a] = "c_recheck"
+            THEN IF release[b] THEN Goto(a, "mutex.unlock.dec") /\ retTo' = [retTo EXCEPT ![a] = "dead"]
+                               ELSE Goto(a, "dead") /\ UNCHANGED retTo
+            ELSE /\ UNCHANGED retTo
+                 /\ IF release[b] THEN Goto(a, "mutex.unlock.dec") ELSE Goto(a, retTo[a])
+  /\ UNCHANGED <<token, unparked, ip, w, cancelled, parked, res>> /\ UNCH_M /\ UNCH_G
 
 UnlockDec(a) ==
-  /\ pc[a] = "unlock.dec"
+  /\ pc[a] = "mutex.unlock.dec"
   /\ cnt' = cnt - 1
-  /\ IF cnt > UnlockGt THEN Goto(a, "unlock.pop") ELSE Goto(a, retTo[a])
-  /\ UNCHANGED toWake /\ UNCH_B /\ UNCH_L
+  /\ IF cnt > UnlockGt THEN Goto(a, "mutex.pop") ELSE Goto(a, retTo[a])
+  /\ UNCHANGED toWake /\ UNCH_B /\ UNCH_L /\ UNCH_G
 
-ParkOk(a) ==
-  /\ pc[a] = "lock.park" /\ token[Me(a)]
-  /\ token' = [token EXCEPT ![Me(a)] = FALSE] /\ Goto(a, "cs")
-  /\ UNCHANGED <<unparked, release>> /\ UNCH_M /\ UNCH_L
+\* the actor passes the point before `blocker.park(None)` and calls it
+ParkEnter(a) ==
+  /\ pc[a] = "sb.park"
+  /\ IF token[Me(a)]
+       THEN /\ token' = [token EXCEPT ![Me(a)] = FALSE] /\ res' = [res EXCEPT ![a] = "Ok"]
+            /\ Goto(a, "sb.park.ret") /\ UNCHANGED parked
+       ELSE IF cancelled[a]
+         THEN /\ res' = [res EXCEPT ![a] = "Canceled"] /\ Goto(a, "sb.park.ret") /\ UNCHANGED <<token, parked>>
+         ELSE /\ parked' = [parked EXCEPT ![a] = TRUE] /\ Goto(a, "parked") /\ UNCHANGED <<token, res>>
+  /\ UNCHANGED <<unparked, release, ip, w, retTo, cancelled>> /\ UNCH_M /\ UNCH_G
 
-ParkCanceled(a) ==
-  /\ pc[a] = "lock.park" /\ cancelled[a]
-  /\ token' = [token EXCEPT ![Me(a)] = FALSE]          \* a racing token is discarded
-  /\ Goto(a, IF ForwardOnCancel THEN "lock.c_isunparked" ELSE "dead")
-  /\ UNCHANGED <<unparked, release>> /\ UNCH_M /\ UNCH_L
+\* the runtime resumes a parked actor whose token arrived (no verification point: internal)
+WakeByToken(a) ==
+  /\ pc[a] = "parked" /\ parked[a] /\ token[Me(a)]
+  /\ token' = [token EXCEPT ![Me(a)] = FALSE] /\ parked' = [parked EXCEPT ![a] = FALSE]
+  /\ res' = [res EXCEPT ![a] = "Ok"] /\ Goto(a, "sb.park.ret")
+  /\ UNCHANGED <<unparked, release, ip, w, retTo, cancelled>> /\ UNCH_M /\ UNCH_G
 
-CIsUnparked(a) ==
-  /\ pc[a] = "lock.c_isunparked"
-  /\ IF unparked[Me(a)]
-       THEN Goto(a, "unlock.dec") /\ retTo' = [retTo EXCEPT ![a] = "dead"]
-       ELSE Goto(a, "lock.c_setrel") /\ UNCHANGED retTo
-  /\ UNCHANGED <<rnd, w, cancelled>> /\ UNCH_B /\ UNCH_M
+ParkReturn(a) ==
+  /\ pc[a] = "sb.park.ret"
+  /\ IF res[a] = "Ok"
+       THEN /\ Goto(a, "mutex.cs") /\ UNCHANGED token
+            /\ seen' = [seen EXCEPT ![a] = data]
+       ELSE /\ token' = [token EXCEPT ![Me(a)] = FALSE]    \* post-resume check_park discards a racing token
+            /\ Goto(a, IF ForwardOnCancel THEN "sb.is_unparked" ELSE "dead")
+            /\ UNCHANGED seen
+  /\ res' = [res EXCEPT ![a] = "none"]
+  /\ UNCHANGED <<unparked, release, ip, w, retTo, cancelled, parked, cnt, toWake, data>>
 
-CSetRel(a) ==
-  /\ pc[a] = "lock.c_setrel"
-  /\ release' = [release EXCEPT ![Me(a)] = TRUE] /\ Goto(a, "lock.c_recheck")
-  /\ UNCHANGED <<token, unparked>> /\ UNCH_M /\ UNCH_L
+\* is_unparked() is read twice on the cancel path: first check, then the re-check after set_release
+IsUnparked(a) ==
+  /\ pc[a] = "sb.is_unparked"
+  /\ IF retTo[a] # "c_second"
+       THEN IF unparked[Me(a)]
+              THEN Goto(a, "mutex.unlock.dec") /\ retTo' = [retTo EXCEPT ![a] = "dead"]
+              ELSE Goto(a, "sb.set_release") /\ UNCHANGED retTo
+       ELSE IF unparked[Me(a)]
+              THEN Goto(a, "sb.take_release") /\ retTo' = [retTo EXCEPT ![a] = "c_recheck"]
+              ELSE Goto(a, "dead") /\ UNCHANGED retTo
+  /\ UNCHANGED <<ip, w, cancelled, parked, res>> /\ UNCH_B /\ UNCH_M /\ UNCH_G
 
-CRecheck(a) ==
-  /\ pc[a] = "lock.c_recheck"
-  /\ Goto(a, IF unparked[Me(a)] THEN "lock.c_takerel" ELSE "dead")
-  /\ UNCH_B /\ UNCH_M /\ UNCH_L
+SetRelease(a) ==
+  /\ pc[a] = "sb.set_release"
+  /\ release' = [release EXCEPT ![Me(a)] = TRUE] /\ Goto(a, "sb.is_unparked")
+  /\ retTo' = [retTo EXCEPT ![a] = "c_second"]
+  /\ UNCHANGED <<token, unparked, ip, w, cancelled, parked, res>> /\ UNCH_M /\ UNCH_G
 
-CTakeRel(a) ==
-  /\ pc[a] = "lock.c_takerel"
-  /\ release' = [release EXCEPT ![Me(a)] = FALSE]
-  /\ IF release[Me(a)]
-       THEN Goto(a, "unlock.dec") /\ retTo' = [retTo EXCEPT ![a] = "dead"]
-       ELSE Goto(a, "dead") /\ UNCHANGED retTo
-  /\ UNCHANGED <<token, unparked, rnd, w, cancelled>> /\ UNCH_M
-
+\* inside the critical section: the holder writes the protected datum and leaves
 LeaveCS(a) ==
-  /\ pc[a] = "cs"
-  /\ Goto(a, "unlock.dec") /\ retTo' = [retTo EXCEPT ![a] = "next"]
-  /\ UNCHANGED <<rnd, w, cancelled>> /\ UNCH_B /\ UNCH_M
+  /\ pc[a] = "mutex.cs"
+  /\ data' = data + 1 /\ UNCHANGED seen
+  /\ Goto(a, "mutex.unlock.dec") /\ retTo' = [retTo EXCEPT ![a] = "next"]
+  /\ UNCHANGED <<ip, w, cancelled, parked, res>> /\ UNCH_B /\ UNCH_M
 
-NextRound(a) ==
+NextOp(a) ==
   /\ pc[a] = "next"
-  /\ IF rnd[a] < Rounds THEN rnd' = [rnd EXCEPT ![a] = rnd[a] + 1] /\ Goto(a, "try.cas")
-                        ELSE UNCHANGED rnd /\ Goto(a, "done")
-  /\ UNCHANGED <<w, retTo, cancelled>> /\ UNCH_B /\ UNCH_M
+  /\ IF ip[a] < Len(Prog[a]) THEN ip' = [ip EXCEPT ![a] = ip[a] + 1] /\ Goto(a, "mutex.try.cas")
+                             ELSE UNCHANGED ip /\ Goto(a, "done")
+  /\ UNCHANGED <<w, retTo, cancelled, parked, res>> /\ UNCH_B /\ UNCH_M /\ UNCH_G
 
+\* environment: cancel() of a victim coroutine; a parked victim without token is woken with Canceled
 Cancel(a) ==
   /\ a \in Victims /\ ~cancelled[a] /\ pc[a] \notin {"done", "dead"}
   /\ cancelled' = [cancelled EXCEPT ![a] = TRUE]
-  /\ UNCHANGED <<pc, rnd, w, retTo>> /\ UNCH_B /\ UNCH_M
+  /\ IF pc[a] = "parked" /\ ~token[Me(a)]
+       THEN /\ parked' = [parked EXCEPT ![a] = FALSE] /\ res' = [res EXCEPT ![a] = "Canceled"]
+            /\ pc' = [pc EXCEPT ![a] = "sb.park.ret"]
+       ELSE UNCHANGED <<parked, res, pc>>
+  /\ UNCHANGED <<ip, w, retTo>> /\ UNCH_B /\ UNCH_M /\ UNCH_G
+
+\* the actions of actor `a` that correspond to passing the verification point named pc[a]
+Step(a) ==
+  \/ TryCas(a) \/ LockPush(a) \/ LockInc(a) \/ Pop(a) \/ WakeUnpark(a) \/ WakeSetUnparked(a)
+  \/ TakeRelease(a) \/ UnlockDec(a) \/ ParkEnter(a) \/ ParkReturn(a) \/ IsUnparked(a)
+  \/ SetRelease(a) \/ LeaveCS(a)
+\* internal steps (no point)
+Internal(a) == WakeByToken(a) \/ NextOp(a)
+\* expected hook argument at the current point (-1 = not compared)
+Obs(a) == IF pc[a] = "sb.park.ret" THEN (IF res[a] = "Ok" THEN 0 ELSE 2) ELSE -1
 
 AllOver == \A a \in Actors : pc[a] \in {"done", "dead"}
 Stutter == AllOver /\ UNCHANGED vars
 
 Next ==
-  \/ \E a \in Actors :
-       TryCas(a) \/ LockPush(a) \/ LockInc(a) \/ Pop(a) \/ WakeUnpark(a) \/ WakeSetUnparked(a)
-       \/ WakeTakeRel(a) \/ UnlockDec(a) \/ ParkOk(a) \/ ParkCanceled(a) \/ CIsUnparked(a)
-       \/ CSetRel(a) \/ CRecheck(a) \/ CTakeRel(a) \/ LeaveCS(a) \/ NextRound(a) \/ Cancel(a)
+  \/ \E a \in Actors : Step(a) \/ Internal(a) \/ Cancel(a)
   \/ Stutter
 Spec == Init /\ [][Next]_vars
 
 -----------------------------------------------------------------------------
-MutualExclusion == Cardinality({a \in Actors : pc[a] = "cs"}) <= 1
-PopNeverEmpty   == \A a \in Actors : pc[a] = "unlock.pop" => toWake # <<>>
+MutualExclusion == Cardinality({a \in Actors : pc[a] = "mutex.cs"}) <= 1
+DataVisible     == \A a \in Actors : pc[a] = "mutex.cs" => seen[a] = data
+PopNeverEmpty   == \A a \in Actors : pc[a] = "mutex.pop" => toWake # <<>>
 \* when everybody is finished the lock is free and nothing is queued except stale blockers
 \* of cancelled waiters that nobody will ever need
 QuiescentFree   == AllOver => cnt = Len(toWake)
-\* deadlock-freedom (TLC's deadlock check with the Stutter step) is HandOffToLive
+\* cnt counts the holder plus the registered (not yet given-up) waiters
+TryLockSound    == \A a \in Actors : (pc[a] = "mutex.cs") => cnt >= 1
+\* deadlock-freedom (TLC's deadlock check with the Stutter step) is "no stranded waiter"
 =============================================================================
